@@ -57,6 +57,24 @@ Theorem C12_run_is_trace : forall l st g,
     /\ (tail = [] \/ exists f, tail = [(f, Crash)]).
 Proof. exact run_is_trace. Qed.
 
+(* ---- the storage side (2026-10-02).  SetDeleteTopic is a plain (blocking) channel send: however long the storage
+   module is busy, the cycle waits and the request arrives.  For EVERY storage behaviour `sv` (which only decides the
+   fate of broker-offset updates, sent with a 1 s timeout) the storage module receives the deletion of t exactly when
+   delete_exactly_once says it is due, and exactly once (`received sv o` = what storage gets from the cycle). *)
+Theorem C12_deletion_reaches_storage_once : forall l en sv t,
+  In en (trace init_state None l) ->
+  (In (SDeleteTopic t) (received sv (en_out en)) <->
+     exists ts, refreshed (en_pre en) (en_env en) = Some ts /\ ~ In t ts /\ In t (ghost_topics (en_ghost en)))
+  /\ (In (SDeleteTopic t) (received sv (en_out en)) ->
+      count_occ sreq_eq_dec (received sv (en_out en)) (SDeleteTopic t) = 1%nat).
+Proof. exact deletion_reaches_storage_once. Qed.
+
+Theorem C12_received_deletes_all : forall sv o, received_deletes sv o = co_deletes o.
+Proof. exact received_deletes_all. Qed.
+
+Theorem C12_run_s_forget : forall l st, map forget_storage (run_s st l) = run st (map fst l).
+Proof. exact run_s_forget. Qed.
+
 Print Assumptions C12_delete_exactly_once.
 Print Assumptions C12_one_deletion_per_disappearance.
 Print Assumptions C12_failed_refresh_keeps_snapshot.
@@ -66,3 +84,6 @@ Print Assumptions C12_leaderless_not_deleted.
 Print Assumptions C12_present_not_deleted.
 Print Assumptions C12_run_entries.
 Print Assumptions C12_run_is_trace.
+Print Assumptions C12_deletion_reaches_storage_once.
+Print Assumptions C12_received_deletes_all.
+Print Assumptions C12_run_s_forget.
